@@ -85,6 +85,27 @@ int main (int argc, char** argv)
     double fA = A->modulation (); double fB = B->modulation ();
     out ("fA", fA); out ("fB", fB); out ("icov", c->get_intensity_covariance ());
     if (!symbolic) { expect_true ("factors finite", std::isfinite (fA) && std::isfinite (fB)); } });
+  // changing a modulation index after the first draw: the next draw uses the new parameters
+  fn ("lognormal_pair_rebuild", [&] { gauss_reset ();
+    double rho = in ("rho", -0.3, 0.3), b0 = in ("b0", 0.5, 1.5), b1 = in ("b1", 0.5, 1.5), b0old = in ("b0old", 0.5, 1.5);
+    gauss_preload (4);
+    bivariate_lognormal_modes* c = new bivariate_lognormal_modes (rho);
+    c->set_beta (0, b0old); c->set_beta (1, b1); c->set_normal (&gasdev);
+    mode* mA = new mode; mode* mB = new mode;
+    modulated_mode* A = c->get_modulated_mode (0, mA); modulated_mode* B = c->get_modulated_mode (1, mB);
+    A->modulation (); B->modulation ();           // first joint draw with the old index (consumes g0, g1)
+    c->set_beta (0, b0);
+    double fA = A->modulation (); double fB = B->modulation ();
+    out ("fA", fA); out ("fB", fB); out ("varA", c->get_mod_variance (0)); out ("icov", c->get_intensity_covariance ());
+    // a fresh coordinator with the new index, fed the same two deviates
+    bivariate_lognormal_modes* d = new bivariate_lognormal_modes (rho);
+    d->set_beta (0, b0); d->set_beta (1, b1); d->set_normal (&gasdev);
+    symx::gauss_qpos = 2;
+    modulated_mode* A2 = d->get_modulated_mode (0, new mode); modulated_mode* B2 = d->get_modulated_mode (1, new mode);
+    double gA = A2->modulation (); double gB = B2->modulation ();
+    out ("wA", gA); out ("wB", gB); out ("wvarA", d->get_mod_variance (0)); out ("wicov", d->get_intensity_covariance ());
+    if (!symbolic) { expect ("after set_beta the next pair uses the new index (A)", fA, gA); expect ("after set_beta the next pair uses the new index (B)", fB, gB); }
+  });
 #ifndef SYMX_SYMBOLIC
   // finiteness at the very edge of the admissible range (plain build oracle)
   fn ("lognormal_edge_plain", [&] {
